@@ -101,6 +101,9 @@ def run_property(prop, fn, level, tier, seed, checker_cmd, explanation, assumpti
     known = Known()
     try:
         fn(ctx, rep)
+        if prop != "C11":
+            from . import rules_c11, vg
+            rules_c11.transfer(ctx, rep, set(vg.COVERED))
     except extract.BuildError as e:
         first = ""
         for line in e.log.splitlines():
